@@ -12,11 +12,13 @@ import (
 	"os"
 	"os/exec"
 	"path/filepath"
+	"regexp"
 	"strings"
 	"sync"
 	"time"
 	"unicode/utf8"
 
+	"github.com/evanw/esbuild/internal/config"
 	"github.com/evanw/esbuild/pkg/api"
 	. "github.com/evanw/esbuild/verifharness/hlib"
 )
@@ -200,6 +202,8 @@ type glueOutcome struct {
 	got    interface{}
 	expect interface{}
 	note   string
+	natLog []string // probe log of the native run and of this bundle (ok outcomes)
+	bunLog []string
 }
 
 func writeTree(dir string, files map[string]string) error {
@@ -329,7 +333,7 @@ func (p *prepared) evaluate(res []nodeRes) []glueOutcome {
 			outs = append(outs, glueOutcome{kind: "fail", what: "glue-entry-exports-differ", input: input(&c), got: ge, expect: native.exports()})
 			continue
 		}
-		outs = append(outs, glueOutcome{kind: "ok"})
+		outs = append(outs, glueOutcome{kind: "ok", natLog: native.Log, bunLog: got.Log})
 	}
 	return outs
 }
@@ -445,6 +449,7 @@ func pickCfgs(r *Rng, k int) []buildCfg {
 }
 
 type glueJob struct {
+	g      *ggraph // abstract graph (nil for asset jobs)
 	files  map[string]string
 	entry  string
 	native string
@@ -454,13 +459,13 @@ type glueJob struct {
 	kind   string
 }
 
-func glueStream(r *Rng, st *Stats, n int, tier string) {
+func glueStream(r *Rng, st *Stats, n int, tier string) []string {
 	var jobs []glueJob
 	for _, g := range fixedGraphs() {
 		if g.shape == "known" {
 			continue
 		}
-		jobs = append(jobs, glueJob{g.render(), g.mods[g.entry].path, g.mods[g.entry].path, g.isESM(g.entry), pickCfgs(r, 3), g.describe(), "glue:fixed"})
+		jobs = append(jobs, glueJob{g, g.render(), g.mods[g.entry].path, g.mods[g.entry].path, g.isESM(g.entry), pickCfgs(r, 3), g.describe(), "glue:fixed"})
 	}
 	for i := 0; i < n; i++ {
 		g := genGraph(r, genOpts{allESM: r.Chance(30), maxMods: 8, allowBad: r.Chance(30)})
@@ -468,7 +473,7 @@ func glueStream(r *Rng, st *Stats, n int, tier string) {
 		if g.invalid {
 			k += ":invalid"
 		}
-		jobs = append(jobs, glueJob{g.render(), g.mods[g.entry].path, g.mods[g.entry].path, g.isESM(g.entry), pickCfgs(r, 3), g.describe(), k})
+		jobs = append(jobs, glueJob{g, g.render(), g.mods[g.entry].path, g.mods[g.entry].path, g.isESM(g.entry), pickCfgs(r, 3), g.describe(), k})
 	}
 	for i := 0; i < n/4+2; i++ {
 		jobs = append(jobs, assetJob(r))
@@ -493,6 +498,67 @@ func glueStream(r *Rng, st *Stats, n int, tier string) {
 		}
 	}
 	knownFindings(st)
+	// evaluation-order cases: abstract graph + real wrap kinds + the two probe logs (first configuration)
+	var evalCases []string
+	for i, outs := range results {
+		j := jobs[i]
+		if j.g == nil || j.g.invalid || j.g.hasThrow || len(outs) == 0 || outs[0].kind != "ok" || outs[0].natLog == nil {
+			continue
+		}
+		if c, ok := evalOrderCase(j, outs[0]); ok {
+			evalCases = append(evalCases, c)
+			st.Note("evalorder", c, len(j.g.mods) > 1)
+		}
+	}
+	return evalCases
+}
+
+var reStartEnd = regexp.MustCompile(`^(\d+):(start|end)$`)
+
+func startEndEvents(log []string) string {
+	var out []string
+	for _, l := range log {
+		if m := reStartEnd.FindStringSubmatch(l); m != nil {
+			k := 0
+			if m[2] == "end" {
+				k = 1
+			}
+			out = append(out, fmt.Sprintf("(%d, %s)", k, m[1]))
+		}
+	}
+	return "[" + strings.Join(out, "; ") + "]"
+}
+
+func evalOrderCase(j glueJob, o glueOutcome) (string, bool) {
+	g := j.g
+	cfg := j.cfgs[0]
+	fm := map[string]config.Format{"esm": config.FormatESModule, "cjs": config.FormatCommonJS, "iife": config.FormatIIFE}[cfg.Format]
+	d, _, _ := scanAndDump(j.files, j.entry, linkCfg{fm, config.PlatformNode})
+	if d == nil || d.HasErrors {
+		return "", false
+	}
+	wrap := map[string]bool{}
+	for _, f := range d.Files {
+		wrap[f.Path] = f.Wrap != 0
+	}
+	zl := func(xs []int) string {
+		var s []string
+		for _, x := range xs {
+			s = append(s, fmt.Sprint(x))
+		}
+		return "[" + strings.Join(s, ";") + "]"
+	}
+	var mods []string
+	for _, md := range g.mods {
+		var static, req []int
+		if md.kind == modESM {
+			static = g.staticDeps(md.id)
+		} else {
+			req = md.requires
+		}
+		mods = append(mods, fmt.Sprintf("EM %s %s %s %s %s %s", CBool(md.kind == modESM), CBool(md.kind == modJSON), zl(static), zl(req), zl(md.dyn), CBool(wrap[md.path])))
+	}
+	return fmt.Sprintf("([%s], %d, %s, %s)", strings.Join(mods, "; "), g.entry, startEndEvents(o.natLog), startEndEvents(o.bunLog)), true
 }
 
 // ---- non-JavaScript assets: the imported value is exactly the file's bytes / text / JSON value ----
@@ -567,7 +633,7 @@ func assetJob(r *Rng) glueJob {
 	}
 	files["$native.mjs"] = ref.String()
 	cfgs := pickCfgs(r, 3)
-	return glueJob{files, "entry.mjs", "$native.mjs", true, cfgs, map[string]interface{}{"shape": "assets"}, "glue:assets"}
+	return glueJob{nil, files, "entry.mjs", "$native.mjs", true, cfgs, map[string]interface{}{"shape": "assets"}, "glue:assets"}
 }
 
 func randAsset(r *Rng) []byte {
